@@ -111,6 +111,18 @@ CLAIMS = {
              "The monitor re-evaluates the rule on the real driver's trace for all 70 combinations in both call orders.",
         technique="Lean 4 weakest-precondition proof over the model + kernel-decided byte facts + exhaustive combination scripts",
         design="7 C13"),
+    'C14': dict(
+        text="Proof. C14_every_interval: for each of the 133 620 documented intervals the timer selection of the driver (modelled in soft-float, "
+             "bit-exact with gcc on every interval in the thorough tier) yields two enabled timers whose period never exceeds the request and "
+             "falls short of it by at most one step of the finer timer, at most 4.1 ms up to 67 855 ms (262 ms above, where only the coarsest "
+             "resolution fits). The quantifier is a finite table and is evaluated interval by interval in the Lean kernel (`decide +kernel`, 96 "
+             "chunk files, no native_decide; about 12 minutes of 16 cores from a clean build, cached afterwards). C14_start_beacon: for every "
+             "payload of up to 64 bytes, prior register and FIFO content, the call programs exactly those coefficients, leaves exactly the "
+             "payload in the FIFO, sets BeaconOn keeping the other bits of RegPacketConfig2 and starts the sequencer after that; "
+             "C14_stop_beacon: sequencer stopped, FIFO flushed, BeaconOn cleared. The defect this check found (coefficient overflow on three "
+             "interval ranges) is repaired in /repo.",
+        technique="Lean 4 kernel evaluation of the whole interval table + weakest-precondition proof of the call + every interval on the real driver (thorough)",
+        design="7 C14"),
     'C15': dict(
         text="Proof for the fault-free clauses; fault clause by enumeration. Theorems Sx.C15_lora (all 8 modes, any previous mode/modulation, "
              "any prior register content: OK, RegOpMode = mode|0x80, RegDioMapping1 per the datasheet table dio1Spec, RegDioMapping2 untouched, "
@@ -158,6 +170,20 @@ CLAIMS = {
              "request of the real driver. The Linux/ESP-IDF backend half is not covered by a theorem (see DESIGN.md section 11).",
         technique="Lean 4 structural theorem over all driver programs + contract monitor in the simulator",
         design="7 C19"),
+    'C20': dict(
+        text="Proof for the dump and for the tool's argument parser; testing for the decoders. C20_dump_is_one_raw_burst (the program of "
+             "sx127x_dump_registers is exactly one raw, uncached burst read of 0x70 bytes from address 1 — no FIFO access), C20_dump_is_the_chip "
+             "(its output is 0 followed by the chip's content of every register, chip untouched). Tool: a Lean model of at_util_string2hex "
+             "(compared with the real function on generated well-formed, truncated, prefix-less, separator-heavy and random strings under "
+             "ASan/UBSan): parse_never_oob (for every argument string no store leaves the allocation), parse_render + "
+             "C20_tool_reads_a_printed_dump (a dump printed as the README prescribes is read back value by value, the last included, and "
+             "reaches the decoder selected by RegOpMode), toolMain_decodes_only_full_dumps with decoders_index_inside_the_dump (main calls a "
+             "decoder only with at least 0x71 values and every subscript in the tool is a literal below that: facts regenerated from "
+             "debug_registers/main.c on every run). That the decoders name the values correctly is decided by running the real tool (ASan) on "
+             "real dumps of configured chips and comparing modulation, mode, frequency, bit rate, deviation, bandwidth and packet settings with "
+             "what was configured. The defect found (heap overflow for the README's own example, last value dropped, no length check) is repaired.",
+        technique="Lean 4 list-induction proofs about a parser model + program-shape theorem + real tool under ASan on real dumps",
+        design="7 C20"),
 }
 
 def main():
